@@ -54,7 +54,8 @@ type Result struct {
 	// (the ndjson Zipkin decoder before fix abfd578 stored such rows); 2 payload types the reader does not know;
 	// 3 payloads that are neither JSON nor a protobuf span
 	TraceShape int `json:"trace_shape,omitempty"`
-	// NullAtRow k>0: the k-th row (1-based) of a single-column statement (label names, values, tags) is NULL
+	// NullAtRow k>0: the k-th row (1-based) carries a NULL: the value of a single-column statement (label names, values,
+	// tags), the last text column of a wider one
 	NullAtRow int `json:"null_at_row,omitempty"`
 }
 
@@ -652,8 +653,18 @@ func (r *rows) Next(dest []driver.Value) error {
 	for i, c := range r.cols {
 		dest[i] = ValueFor(c, r.sql, row, r.pos, len(r.cols), &r.res)
 	}
-	if len(r.cols) == 1 && r.res.NullAtRow > 0 && r.pos == r.res.NullAtRow-1 {
-		dest[0] = nil
+	if r.res.NullAtRow > 0 && r.pos == r.res.NullAtRow-1 {
+		if len(r.cols) == 1 {
+			dest[0] = nil
+		} else {
+			// a NULL in the last text column of the row (a row the reader's Scan cannot convert)
+			for i := len(dest) - 1; i >= 0; i-- {
+				if _, ok := dest[i].(string); ok {
+					dest[i] = nil
+					break
+				}
+			}
+		}
 	}
 	if len(r.cols) == 1 && len(r.st.Strings) < 100000 {
 		if sv, ok := dest[0].(string); ok {
